@@ -4,6 +4,7 @@ import (
 	"go/ast"
 	"go/types"
 	"sort"
+	"strings"
 )
 
 // Reset completeness ("fields T" in a function contract).
@@ -20,8 +21,15 @@ func (fc *FnCtx) resetComplete(st *State) {
 	if ct == nil || ct.FieldsOf == "" || fc.decl == nil {
 		return
 	}
+	if strings.Contains(ct.FieldsOf, ",") {
+		// several recycled types handled by one function (fields A,B): one set of obligations per type
+		for _, tn := range strings.Split(ct.FieldsOf, ",") {
+			fc.resetCompleteByType(st, strings.TrimSpace(tn), true)
+		}
+		return
+	}
 	if fc.decl.Recv == nil || len(fc.decl.Recv.List) == 0 || recvTypeName(fc.decl.Recv.List[0].Type) != ct.FieldsOf {
-		fc.resetCompleteByType(st)
+		fc.resetCompleteByType(st, ct.FieldsOf, false)
 		return
 	}
 	obj := fc.pkg.Types.Scope().Lookup(ct.FieldsOf)
@@ -153,15 +161,15 @@ func (fc *FnCtx) resetComplete(st *State) {
 // resetCompleteByType: the same obligation for a function that is not a method of T (a pool "acquire" that re-points a
 // recycled object): a field counts as written when the function assigns `x.f` for some expression x of type T or *T
 // (decided by the type checker, so a variable of another type that happens to have the same name does not count).
-func (fc *FnCtx) resetCompleteByType(st *State) {
+func (fc *FnCtx) resetCompleteByType(st *State, tname string, qualify bool) {
 	ct := fc.contract
-	obj := fc.pkg.Types.Scope().Lookup(ct.FieldsOf)
+	obj := fc.pkg.Types.Scope().Lookup(tname)
 	if obj == nil {
-		panic(unsupported("fields " + ct.FieldsOf + ": no such type"))
+		panic(unsupported("fields " + tname + ": no such type"))
 	}
 	stt, ok := obj.Type().Underlying().(*types.Struct)
 	if !ok {
-		panic(unsupported("fields " + ct.FieldsOf + ": not a struct"))
+		panic(unsupported("fields " + tname + ": not a struct"))
 	}
 	touched := map[string]bool{}
 	isT := func(e ast.Expr) bool {
@@ -172,7 +180,7 @@ func (fc *FnCtx) resetCompleteByType(st *State) {
 		if p, ok := t.Underlying().(*types.Pointer); ok {
 			t = p.Elem()
 		}
-		return typeName(t) == ct.FieldsOf
+		return typeName(t) == tname
 	}
 	ast.Inspect(fc.decl.Body, func(n ast.Node) bool {
 		switch x := n.(type) {
@@ -199,6 +207,10 @@ func (fc *FnCtx) resetCompleteByType(st *State) {
 			continue
 		}
 		cls := ct.Classes[f]
+		label := f
+		if qualify {
+			label = tname + "." + f
+		}
 		ok := touched[f] || (len(cls) >= 4 && cls[:4] == "kept")
 		goal := T{"(= 0 0)", SBool}
 		if !ok {
@@ -206,8 +218,8 @@ func (fc *FnCtx) resetCompleteByType(st *State) {
 		}
 		own := st.clone()
 		own.pc = fc.definePC(and(st.pc, fc.fresh("rc", SBool)))
-		fc.assert(own, "reset-complete", "reset-complete["+f+"]", goal, fc.decl.Pos(),
-			"field "+f+" of a recycled "+ct.FieldsOf+" is assigned by "+fc.name+", or classified `kept`")
+		fc.assert(own, "reset-complete", "reset-complete["+label+"]", goal, fc.decl.Pos(),
+			"field "+f+" of a recycled "+tname+" is assigned by "+fc.name+", or classified `kept`")
 	}
 	fc.assumptions["reset-complete obligations are decided structurally (which fields are written), not by the solver"] = true
 }
